@@ -279,10 +279,17 @@ def run() -> int:
                 keys.append("callsite:line6-after-line7")
             rep.add_violation(Violation(PROP, keys, what, payload))
     rep.extra["id_lines_fired"] = lines_seen
+    from .. import history_runs
+
+    history_runs.run(rep, PROP)
     return rep.finish()
 
 
 def replay(payload: dict) -> int:
+    if payload.get("kind") == "history":
+        from .. import history_runs
+
+        return history_runs.replay(PROP, payload)
     g = GSpec.from_json(payload["graph"])
     X, Y = payload["X"], payload["Y"]
     est = run_id(g, X, Y)
